@@ -7,9 +7,12 @@ the tokens.
 """
 from __future__ import annotations
 
+import copy
 import itertools
+import pickle
 
 from rt import impl, ref_pointer as rp
+from rt.foundry import ForeignFailed, foreign
 from rt.jsonval import canon, h
 
 ID = "C14"
@@ -61,6 +64,13 @@ def routes(tokens, ue):
         out["slash"] = slashed
     for cname, carrier in (("iter", lambda: iter(list(tokens))), ("generator", lambda: (t for t in tokens)), ("map", lambda: map(str, tokens)), ("tuple", lambda: tuple(tokens)), ("dict-keys", lambda: dict.fromkeys(tokens).keys() if len(set(tokens)) == len(tokens) else list(tokens))):
         out["from_parts(%s)" % cname] = (lambda c=carrier: JSONPointer.from_parts(c(), unicode_escape=ue))
+    out["copy"] = lambda: copy.copy(JSONPointer(text, unicode_escape=ue))
+    out["deepcopy"] = lambda: copy.deepcopy(JSONPointer.from_parts(list(tokens), unicode_escape=ue))
+    out["pickle"] = lambda: pickle.loads(pickle.dumps(JSONPointer(text, unicode_escape=ue)))
+    # built in another interpreter (different string-hash seed) and carried here by pickle
+    out["another-interpreter(parse)"] = lambda: foreign("pointer", text, ue, False)
+    out["another-interpreter(from_parts)"] = lambda: foreign("from_parts", list(tokens), ue)
+    out["another-interpreter(parent-of-extension)"] = lambda: foreign("pointer", rp.encode(list(tokens) + ["x"]), ue, False).parent()
     out["parent-of-extension"] = lambda: JSONPointer(rp.encode(list(tokens) + ["x"]), unicode_escape=ue).parent()
     # from_match: build a document containing the path and match it
     doc = {}
@@ -87,6 +97,9 @@ def check_sequence(ctx, tokens, ue):
     built = {}
     for name, fn in routes(tokens, ue).items():
         o = impl.call(fn)
+        if not o.ok and isinstance(o.exc, ForeignFailed):
+            ctx.count("other_interpreter_could_not_deliver")
+            continue
         if not o.ok:
             ctx.violation("construction-raised:%s:%s" % (name, type(o.exc).__name__), case, {"tokens": list(tokens), "route": name, "error": o.desc()})
             return
@@ -281,7 +294,7 @@ def finalize(m, tier):
     if n != 1 + 20 + 400 + 8000:
         inc.append("enumeration incomplete: %d sequences" % n)
     cr = m["matrices"].get("construction_routes", {})
-    for route in ("parse", "from_parts(str)", "from_parts(int)", "join", "slash", "parent-of-extension", "from_match"):
+    for route in ("parse", "from_parts(str)", "from_parts(int)", "join", "slash", "parent-of-extension", "from_match", "pickle", "another-interpreter(parse)", "another-interpreter(from_parts)"):
         if not cr.get(route):
             inc.append("construction route never used: %s" % route)
     return {"inconclusive": inc, "exhaustive": False, "coverage": {"exhaustive_subspaces": ["all %d token sequences of length <= 3 over the 20-token alphabet x 2 decoding modes" % n]}}
